@@ -245,6 +245,13 @@ class Constant(DataclassHideDefault):
             return False
         return constant_key(self.constant) == constant_key(__o.constant)
 
+    def __hash__(self) -> int:
+        # Hash the same key that is used for equality, so that equal constants
+        # have equal hashes (the hash of a NaN depends on its identity in Python 3.10+)
+        from ._constants import constant_key
+
+        return hash((constant_key(self.constant), self._index_override))
+
 
 @dataclass(frozen=True)
 class Freevar(DataclassHideDefault):
